@@ -18,7 +18,7 @@ RULE = (
     "nonlocal, comprehension target, walrus, self.attr, class attribute): first binding any of the 17 forms, second "
     "binding one of 6 core forms (thorough: all 17) x scope (module, function; thorough: method, nested function); "
     "each binding gets a distinct value and is read and printed after both bindings. drivers: the nine renaming rules "
-    "alone, and format_code (quick: module scope). oracle: original and result executed, identical output (a captured "
+    "alone, and format_code (quick: module scope and both bindings of a core form). oracle: original and result executed, identical output (a captured "
     "or half-renamed binding changes a printed value or raises NameError / UnboundLocalError / AttributeError). "
     "non-trivial = the driver changed the text"
 )
@@ -135,7 +135,8 @@ def run_unit(unit):
         for f2 in unit["forms2"]:
             if unit["scope"] != "module" and "global" in (f1, f2):
                 pass  # global inside a function binds a module name: still a legal program
-            v, info = check(unit["n1"], f1, unit["n2"], f2, unit["scope"], with_fc=(unit["scope"] == "module" or tier == "thorough"))
+            with_fc = tier == "thorough" or (unit["scope"] == "module" and f1 in CORE_FORMS)
+            v, info = check(unit["n1"], f1, unit["n2"], f2, unit["scope"], with_fc=with_fc)
             if not info["admitted"]:
                 st["program_not_admitted"] = st.get("program_not_admitted", 0) + 1
                 continue
